@@ -9,7 +9,7 @@ W=$(mktemp -d /tmp/vver-XXXXXX)
 trap 'git -C /repo worktree remove --force "$W/repo" >/dev/null 2>&1; rm -rf "$W"' EXIT
 git -C /repo worktree add --detach "$W/repo" HEAD -q || exit 2
 cd "$W/repo"
-git apply "$D/patch.diff" || { echo "RESULT applies=no"; exit 1; }
+git apply "$D/patch.diff" 2>/dev/null || patch -p1 -F3 -s < "$D/patch.diff" || { echo "RESULT applies=no"; exit 1; }
 go build ./... > "$W/build.log" 2>&1; b=$?
 go test -vet=off -count=1 $(go list ./... | grep -v cmd/templ/lspcmd$) > "$W/test.log" 2>&1; t=$?
 (cd runtime/fuzzing && go test -vet=off -count=1 ./... >> "$W/test.log" 2>&1) || t=1
@@ -34,7 +34,7 @@ cmd=$(grep -E '^\s*(go test|go run) ' "$README" | head -1 | sed -E 's/^\s*//')
 echo "demo: placed=$placed cmd=[$cmd]"
 if [ -n "$cmd" ]; then
   timeout 900 bash -c "$cmd" > "$W/demo_with.log" 2>&1; dw=$?
-  git apply -R "$D/patch.diff"
+  git apply -R "$D/patch.diff" 2>/dev/null || patch -R -p1 -F3 -s < "$D/patch.diff"
   timeout 900 bash -c "$cmd" > "$W/demo_without.log" 2>&1; dwo=$?
 else dw=-1; dwo=-1; fi
 echo "RESULT applies=yes build=$b suite=$t demo_with_change=$dw demo_without_change=$dwo"
